@@ -39,6 +39,8 @@ class Contract:
         self.opaque_raise = kw.pop("opaque_raise", False)
         self.bind = kw.pop("bind", {})
         self.prop = kw.pop("prop", False)
+        self.receiver = kw.pop("receiver", None)    # python expression building `self` for the bounded runner / replay
+        self.hints = kw.pop("hints", {})     # clause name -> invariant names its proof needs (others are dropped in the focused stage)
         self.clause_props = kw.pop("clause_props", {})   # clause-name prefix -> properties it belongs to (default: all of serves)
         self.ensures_local = _named(kw.pop("ensures_local", {}), "local")   # postconditions that may mention locals
         self.not_assumed = kw.pop("not_assumed", [])   # clauses with an open finding: checked here, never assumed by callers
